@@ -38,7 +38,10 @@ THEOREMS = [
     # reason tags = forced hypotheses (node level); casts; IS NULL
     "select_abs", "select_abs_bool", "select_abs_str", "cast_pointwise", "isnull_pointwise",
     # whole expression trees
-    "evalK_len", "eval_tree_pointwise", "like_abs", "substring_abs", "replace_abs", "repeat_abs",
+    "evalK_len", "eval_tree_pointwise", "evalK_no_tags", "eval_tree_pointwise_total",
+    # operands of type NULL (since /repo 26c93c7)
+    "arith_col_abs", "cmp_col_abs", "and_col_abs", "or_col_abs", "ite_col_abs",
+    "like_abs", "substring_abs", "replace_abs", "repeat_abs",
     "concat_abs", "neg_abs",
     # LIKE
     "like_pointwise", "like_regression",
@@ -59,6 +62,13 @@ WITNESSES = [
     ("overflow_is_error", "(k 1 (+ #0 #1) (i32 v2147483647) (i32 v1))"),
     ("raw_invariant_unsound", "(e 2 (or (cast BOOLEAN (+ #0 i32:5)) #1) (i32 v1 n0) (bool vf vf))"),
     ("filter_uses_raw_bits_unsound", "(e 1 (or (cast BOOLEAN #0) b:false) (i32 n5))"),
+    # operands of type NULL: the former witness of `kernel:null-typed-operand` and its relatives
+    ("arith_col_abs", "(k 1 (+ #0 #1) (i32 v1) (null 1))"),
+    ("arith_col_abs", "(k 2 (/ #0 #1) (null 2) (i64 v0 n7))"),
+    ("cmp_col_abs", "(k 2 (= #0 #1) (i32 v1 n0) (null 2))"),
+    ("and_col_abs", "(k 3 (and #0 #1) (null 3) (bool vf vt nt))"),
+    ("or_col_abs", "(k 3 (or #0 #1) (bool vf vt nf) (null 3))"),
+    ("ite_col_abs", "(k 2 (if #0 #1 #2) (bool vt nf) (null 2) (null 2))"),
 ]
 
 
@@ -110,17 +120,35 @@ def classify_fold(req, impl_line, model_line):
     differs = so != "-" and not symbolic_null and not (so == sn or (not so.startswith("ok") and not sn.startswith("ok")))
     if differs:
         problems.append("optimizer-on!=off")
-    # `fold:null-loses-type` explains only "fails with the optimizer, succeeds without"
-    if "fold:null-loses-type" in tags and not (problems == ["optimizer-on!=off"] and not so.startswith("ok") and sn.startswith("ok")):
-        tags = [t for t in tags if t != "fold:null-loses-type"]
+    # `illtyped`: analyze_type (model: `typeOf`) rejects the expression, so the binder never hands
+    # it to eval_constant or to the evaluator (`'a' || NULL`: folding says NULL, the kernel has no
+    # arm); model == implementation is still required on it, fold == eval is not a claim
+    # `lazy:<v>`: eager evaluation fails, evaluation with SQL's lazy CASE gives v (driver: pruneCase)
+    lazy = [t[5:] for t in tags if t.startswith("lazy:")]
+    tags = [t for t in tags if not t.startswith("lazy:")]
+    illtyped = "illtyped" in tags
+    if illtyped:
+        tags = [t for t in tags if t != "illtyped"]
+        problems = []
+        differs = False
     if differs and fold == "none" and not tags:
         if so.startswith("ok") and not sn.startswith("ok") and not rt.startswith("ok"):
             # direct evaluation fails (overflow / failed cast in some subexpression), the optimised
-            # plan returns a value: rewriting removed or reordered the failing subexpression
-            tags = ["optimizer:removes-runtime-error"]
+            # plan returns a value.  Two mechanisms:
+            #  - the failing subexpression sits in a CASE branch that is not taken: SQL's lazy CASE
+            #    gives exactly the optimised plan's value, the eager evaluator is what deviates;
+            #  - SQL demands the failing subexpression (no CASE protects it) and a rewrite rule
+            #    (x * 0 => 0, x AND false => false, a + b > c => a > c - b, …) removed it.
+            lz = [re.sub(r"^i(16|32|64):", "int:", v) for v in lazy]
+            if lz and so == "ok " + lz[0]:
+                tags = ["optimizer:removes-runtime-error:untaken-case-branch"]
+            elif lz:
+                tags = ["optimizer:on-off-differs"]
+            else:
+                tags = ["optimizer:removes-runtime-error:rewrite"]
         else:
             tags = ["optimizer:on-off-differs"]
-    return {"kind": "fold", "impl": impl_line, "model": model_line, "tags": tags, "problems": problems,
+    return {"kind": "fold", "impl": impl_line, "model": model_line, "tags": tags, "problems": problems, "illtyped": illtyped,
             "model_eq_impl": ip[0] == mp[0] and ip[1] == mp[1]}
 
 
@@ -181,6 +209,8 @@ def decide(ck, results, stats):
             continue
         if r["kind"] == "fold":
             stats["fold"]["requests"] += 1
+            if r.get("illtyped"):
+                stats["fold"]["illtyped"] += 1
             stats["model_vs_impl"]["compared"] += 1
             if not r["model_eq_impl"]:
                 stats["model_vs_impl"]["disagree"] += 1
